@@ -329,6 +329,9 @@ def _path_job_inner(prefix):
     global _OBS, _CURHEAP
     _OBS = path.obs_log
     _CURHEAP = path.heap
+    import os as _os
+    if _os.environ.get("PYVC_CORE") and info["outcome"] == _os.environ.get("PYVC_CORE_OUTCOME", "normal") and path.obligations:
+        _dump_core(path.obligations[-1].assumptions)
     for i, ob in enumerate(path.obligations):
         rec = {"name": ob.name, "line": ob.line, "kind": ob.kind, "note": ob.note,
                "effects": [e[0] for e in path.effects if e[0] != "Fs"], "outcome": info["outcome"]}
@@ -338,7 +341,35 @@ def _path_job_inner(prefix):
             rec["trail"] = list(path.trail)
         out["solver"] += res.get("seconds", 0)
         out["records"].append(rec)
+    # vacuity guard: everything on this path was discharged - for the right reason?
+    out["vacuous"] = (bool(path.obligations) and info["outcome"] is not None
+                      and all(r["status"] == "proved" for r in out["records"])
+                      and _solve.inconsistent(path.obligations[-1].assumptions))
     return out
+
+
+def _dump_core(assumptions):
+    """developer aid: if the assumptions of a path are inconsistent, print an unsat core"""
+    import sys
+    from .abstraction import abstract_query
+
+    r = abstract_query(list(assumptions), z3.BoolVal(False))
+    fs = r[0] if r is not None else list(assumptions)
+    s = z3.Solver()
+    s.set("timeout", 20000)
+    s.set("unsat_core", True)
+    for i, a in enumerate(fs):
+        s.assert_and_track(a, f"a{i}")
+    r = s.check()
+    print("CORE check:", r, len(fs), file=sys.stderr)
+    if r == z3.unsat:
+        core = s.unsat_core()
+        for c in core:
+            i = int(str(c)[1:])
+            if i >= len(assumptions):
+                print("CORE", i, "(literal distinctness)", file=sys.stderr)
+                continue
+            print("CORE", i, str(assumptions[i])[:1500].replace("\n", " "), file=sys.stderr)
 
 
 def verify_function(repo, registry, qualname, feas_ms=1500, solve_now=True, z3_ms=None, procs=None) -> FunctionReport:
@@ -360,6 +391,7 @@ def verify_function(repo, registry, qualname, feas_ms=1500, solve_now=True, z3_m
     _JOB = (repo, registry, func, contract, feas_ms, z3_ms)
     procs = procs or int(os.environ.get("PYVC_PROCS", "16"))
     outcomes = {}
+    reach = {}
     seen_paths = 0
 
     def absorb(out):
@@ -371,6 +403,9 @@ def verify_function(repo, registry, qualname, feas_ms=1500, solve_now=True, z3_m
         rep.solver_seconds += out["solver"]
         if out["outcome"] is not None or out["records"]:
             outcomes[out["outcome"]] = outcomes.get(out["outcome"], 0) + 1
+        if out["outcome"] is not None and out["records"]:
+            live = reach.setdefault(out["outcome"], [0, 0])
+            live[0 if not out.get("vacuous") else 1] += 1
         rep.obligations.extend(out["records"])
 
     if procs <= 1:
@@ -409,6 +444,16 @@ def verify_function(repo, registry, qualname, feas_ms=1500, solve_now=True, z3_m
                 outstanding = nxt
                 if not progressed:
                     time.sleep(0.01)
+    # vacuity guard: every outcome the contract expects (normal, declared raises_X) that the
+    # exploration reached must be reached by at least one path with consistent assumptions
+    expected = {"normal"} | {"raise:" + n[len("raises_"):] for n in contract.funcs if n.startswith("raises_")}
+    for oc_, (live, vac) in sorted(reach.items()):
+        if oc_ in expected:
+            rep.obligations.append({"name": f"{qualname}#reach:{oc_}", "line": rep.line, "kind": "reach",
+                                    "status": "proved" if live > 0 else "unknown", "backend": "vacuity-guard",
+                                    "seconds": 0.0, "note": f"{live} live path(s), {vac} vacuous",
+                                    "reason": "every path to this outcome has inconsistent assumptions: the contract or a model it relies on is contradictory, nothing was proved"})
+    rep.vacuous_paths = sum(v for _, v in reach.values())
     rep.obligations.sort(key=lambda r: (r["name"], r.get("line") or 0, str(r.get("trail"))))
     rep.paths = seen_paths
     rep.outcomes = outcomes
